@@ -110,6 +110,14 @@ def root_spellings(base):
             ('pathlib', pathlib.Path(root)), ('pure_posix_path', pathlib.PurePosixPath(root + '/')), ('pathlib_relative', pathlib.Path('www'))]
 
 
+def _safe(f, *a):
+    """path functions of the harness itself under a locale that cannot encode the name: the name then denotes nothing"""
+    try:
+        return f(*a)
+    except (UnicodeError, ValueError):
+        return ''
+
+
 def classify(ctx, name):
     if name.count('/') > 64:
         ctx.count('names_of_more_than_64_segments')
@@ -189,7 +197,7 @@ def check_call(ctx, static_file, audit, base, files, real_root, rname, root, nam
         if exp is None or data != exp:
             ctx.violation('served-content-is-not-the-file-inside-root', f'{name!r} root={rname}: served {data[:40]!r} from {rp}', wit)
         # the normalised location of the request is that file
-        norm = os.path.realpath(os.path.join(real_root, name.strip('/\\')))
+        norm = _safe(os.path.realpath, os.path.join(real_root, name.strip('/\\')))
         if norm != rp:
             # not demanded by the statement (it only forbids serving from outside the root): an observation
             ctx.count('served_other_file_inside_root_than_stripped_join(not a verdict)')
@@ -202,13 +210,13 @@ def check_call(ctx, static_file, audit, base, files, real_root, rname, root, nam
         if opened:
             ctx.violation('open-on-missing-file', f'{name!r}: {opened!r}', wit)
         # 404 only for something that is not a regular file inside the root
-        norm = os.path.normpath(os.path.join(real_root, name.strip('/\\')))
+        norm = _safe(os.path.normpath, os.path.join(real_root, name.strip('/\\')))
         if norm.startswith(inside) and os.path.isfile(norm):
             ctx.count('existing_file_inside_root_answered_404(not a verdict)')
     else:
         ctx.violation(f'unexpected-status-{code}', f'{name!r} root={rname}', wit)
     if code == 403:
-        norm = os.path.normpath(os.path.join(real_root, name.strip('/\\')))
+        norm = _safe(os.path.normpath, os.path.join(real_root, name.strip('/\\')))
         if norm.startswith(inside) and os.path.isfile(norm) and os.access(norm, os.R_OK):
             ctx.count('readable_file_inside_root_answered_403(not a verdict)')
 
